@@ -6,6 +6,10 @@
        -> `if C: S[v:=X] else: S`
  N38 `D[k] = A if C else B` (a statement)  ->  `if C: D[k] = A else: D[k] = B`
  N39 `len(X) if X else 0` -> `len(X or ())`
+ N53 `D.get(K, X)` over plain operands -> `D[K] if K in D else X`
+ N51 a loop variable re-bound from itself (`k = f(k)`) gets its own name for the new value
+ N52 a run of single-use temporaries read in binding order by the next statement is substituted into it
+ N50 after `if v is None: v = <fresh object>` later `v is [not] None` tests in the block are decided
  N48 `return {K: A if C else B for T in XS}` -> the loop that builds it;  N49 a dead store of a name/constant (`_ = x`) is dropped
  N46 a local bound only to literals, once per branch, is replaced by the literal that reaches each read (straight-line, outside loops)
  N47 `next(<generator expression>)` without a default -> `[<comprehension>][0]`
@@ -428,6 +432,28 @@ def _n46(fn):
                     setattr(holder, fld, keep or [ast.Pass()])
 
 
+def _pure_table(e) -> bool:
+    return _is_chain(e) or (isinstance(e, ast.Call) and isinstance(e.func, ast.Name) and e.func.id == 'getattr' and len(e.args) == 3
+                            and not e.keywords and _is_chain(e.args[0]) and isinstance(e.args[1], ast.Constant)
+                            and isinstance(e.args[2], (ast.Dict, ast.Constant)))
+
+
+def _n53(tree):
+    """N53 `D.get(K, X)` (D a plain chain or `getattr(chain, 'name', {})`, K a plain name, X a plain name or constant)
+    -> `D[K] if K in D else X`"""
+    class T(ast.NodeTransformer):
+        def visit_Call(self, n):
+            self.generic_visit(n)
+            if (isinstance(n.func, ast.Attribute) and n.func.attr == 'get' and len(n.args) == 2 and not n.keywords
+                    and _pure_table(n.func.value) and isinstance(n.args[0], ast.Name)
+                    and isinstance(n.args[1], (ast.Name, ast.Constant))):
+                d, k, x = n.func.value, n.args[0], n.args[1]
+                return ast.copy_location(ast.IfExp(ast.Compare(copy.deepcopy(k), [ast.In()], [copy.deepcopy(d)]),
+                                                   ast.Subscript(copy.deepcopy(d), copy.deepcopy(k), ast.Load()), x), n)
+            return n
+    return T().visit(tree)
+
+
 def _n47(tree):
     """N47 `next(<generator expression>)` without a default is `[<the same comprehension>][0]`"""
     class T(ast.NodeTransformer):
@@ -492,13 +518,156 @@ def _n48(fn, counter):
         setattr(holder, fld, out)
 
 
+def _never_none(e) -> bool:
+    """a freshly constructed object: a call of a capitalised class name (yaml.ScalarNode(..), Node(..)), a display, a non-None literal"""
+    if isinstance(e, ast.Constant):
+        return e.value is not None
+    if isinstance(e, (ast.Tuple, ast.List, ast.Dict, ast.Set, ast.JoinedStr, ast.ListComp, ast.DictComp, ast.SetComp)):
+        return True
+    if isinstance(e, ast.Call):
+        f = e.func
+        nm = f.attr if isinstance(f, ast.Attribute) else f.id if isinstance(f, ast.Name) else ''
+        return bool(nm) and nm[0].isupper() and _is_chain(f)
+    return False
+
+
+def _n50(fn):
+    """N50 after `if v is None: ..; v = <fresh object>` (no else) the local v is not None: later tests `v is None` / `v is not
+    None` in the same block, up to the next store of v, are decided and their dead arm removed"""
+    for holder, fld, blk in list(_blocks(fn)):
+        i = 0
+        while i < len(blk):
+            st = blk[i]
+            if (isinstance(st, ast.If) and not st.orelse and isinstance(st.test, ast.Compare) and len(st.test.ops) == 1
+                    and isinstance(st.test.ops[0], ast.Is) and isinstance(st.test.left, ast.Name)
+                    and isinstance(st.test.comparators[0], ast.Constant) and st.test.comparators[0].value is None
+                    and st.body and isinstance(st.body[-1], ast.Assign) and len(st.body[-1].targets) == 1
+                    and isinstance(st.body[-1].targets[0], ast.Name) and st.body[-1].targets[0].id == st.test.left.id
+                    and _never_none(st.body[-1].value)):
+                v = st.test.left.id
+                j = i + 1
+                while j < len(blk):
+                    later = blk[j]
+                    if (isinstance(later, ast.If) and isinstance(later.test, ast.Compare) and len(later.test.ops) == 1
+                            and isinstance(later.test.ops[0], (ast.Is, ast.IsNot)) and isinstance(later.test.left, ast.Name)
+                            and later.test.left.id == v and isinstance(later.test.comparators[0], ast.Constant)
+                            and later.test.comparators[0].value is None):
+                        live = later.orelse if isinstance(later.test.ops[0], ast.Is) else later.body
+                        blk[j:j + 1] = list(live)
+                        continue
+                    if any(isinstance(n, ast.Name) and n.id == v and not isinstance(n.ctx, ast.Load) for n in ast.walk(later)):
+                        break
+                    j += 1
+            i += 1
+        if not blk:
+            blk.append(ast.Pass())
+
+
+def _n51(fn, counter):
+    """N51 a loop variable re-bound from itself in the loop body (`k = f(k)`) gets a name of its own for the new value - the reads
+    that follow in the body see that name (nobody reads the variable after the loop)"""
+    for lo in [n for n in _own_nodes(fn) if isinstance(n, ast.For)]:
+        targets = {x.id for x in ast.walk(lo.target) if isinstance(x, ast.Name)}
+        body = lo.body
+        for i, st in enumerate(body):
+            if not (isinstance(st, ast.Assign) and len(st.targets) == 1 and isinstance(st.targets[0], ast.Name)
+                    and st.targets[0].id in targets):
+                continue
+            v = st.targets[0].id
+            # only this one re-binding in the loop, at the top level of its body; v dead outside the loop
+            stores = [n for n in ast.walk(lo) if isinstance(n, ast.Name) and n.id == v and not isinstance(n.ctx, ast.Load)]
+            if len(stores) != 2:
+                continue
+            outside = [n for n in ast.walk(fn) if isinstance(n, ast.Name) and n.id == v and not any(n is y for y in ast.walk(lo))]
+            if outside:
+                continue
+            if any(isinstance(n, (ast.FunctionDef, ast.Lambda)) for b in body for n in ast.walk(b)):
+                continue
+            counter[0] += 1
+            new = '%s__r%d' % (v, counter[0])
+            st.targets[0].id = new
+            for later in body[i + 1:]:
+                for n in ast.walk(later):
+                    if isinstance(n, ast.Name) and n.id == v:
+                        n.id = new
+
+
+def _eval_order(e):
+    """names and calls of an expression in (approximate) evaluation order: operands before the operation"""
+    out = []
+
+    def rec(n):
+        if isinstance(n, ast.Name):
+            out.append(n)
+            return
+        if isinstance(n, (ast.Lambda, ast.GeneratorExp, ast.ListComp, ast.SetComp, ast.DictComp)):
+            out.append(n)
+            return
+        for c in ast.iter_child_nodes(n):
+            rec(c)
+        if isinstance(n, (ast.Call, ast.Subscript, ast.BinOp, ast.Compare, ast.Await, ast.Yield, ast.YieldFrom)):
+            out.append(n)
+    rec(e)
+    return out
+
+
+def _n52(fn):
+    """N52 a run of temporaries, each bound once and read once, all read - in the order they were bound, before anything else
+    that could have an effect is evaluated - by the statement that follows the run, are substituted into that statement"""
+    for holder, fld, blk in list(_blocks(fn)):
+        i = 0
+        while i < len(blk):
+            run = []
+            j = i
+            while j < len(blk):
+                st = blk[j]
+                if (isinstance(st, ast.Assign) and len(st.targets) == 1 and isinstance(st.targets[0], ast.Name)
+                        and not isinstance(st.value, (ast.Yield, ast.YieldFrom, ast.Await))):
+                    v = st.targets[0].id
+                    n_store = sum(1 for n in ast.walk(fn) if isinstance(n, ast.Name) and n.id == v and not isinstance(n.ctx, ast.Load))
+                    loads = [n for n in ast.walk(fn) if isinstance(n, ast.Name) and n.id == v and isinstance(n.ctx, ast.Load)]
+                    if n_store == 1 and len(loads) == 1 and v not in _names(st.value):
+                        run.append((st, v, loads[0]))
+                        j += 1
+                        continue
+                break
+            if len(run) >= 2 and j < len(blk) and isinstance(blk[j], (ast.Expr, ast.Assign, ast.Return)) and blk[j].value is not None:
+                consumer = blk[j]
+                order = _eval_order(consumer.value)
+                pos = {}
+                for k, n in enumerate(order):
+                    pos[id(n)] = k
+                idx = [pos.get(id(ld)) for _, _, ld in run]
+                ok = all(x is not None for x in idx) and idx == sorted(idx)
+                if ok:
+                    # nothing effectful before the last temporary is read, and no temporary's value reads what a later one binds
+                    last = idx[-1]
+                    for n in order[:last]:
+                        if not isinstance(n, ast.Name):
+                            ok = False
+                    temps = {v for _, v, _ in run}
+                    for st, v, _ in run:
+                        if _names(st.value) & temps:
+                            ok = False
+                if ok:
+                    for st, v, ld in run:
+                        _Subst(lambda n, ld=ld: n is ld, lambda n, st=st: st.value).visit(consumer)
+                    del blk[i:j]
+                    continue
+            i = max(j, i + 1)
+
+
 def pre_normalize(tree: ast.Module) -> ast.Module:
     tree = _n39(tree)
     tree = _n47(tree)
+    tree = _n53(tree)
     _n42(tree)
     counter = [0]
     for fn in [n for n in ast.walk(tree) if isinstance(n, (ast.FunctionDef, ast.AsyncFunctionDef))]:
         _n49(fn)
+        _n50(fn)
+        _n51(fn, counter)
+        _n52(fn)
         _n48(fn, counter)
         _n46(fn)
         _n41(fn)
